@@ -378,6 +378,7 @@ func (vc *VC) inline(fr *Frame, instr ssa.Instruction, fn *ssa.Function, spec *F
 	vc.bumpEvent(st, name)
 	vc.inlined[vc.eng.qualName(fn)] = true
 	nf := &Frame{fn: fn, spec: spec, env: map[ssa.Value]Val{}, params: map[string]Val{}, callOrd: map[string]int{}, oldSt: st.clone()}
+	nf.safeOn = (fr.top || fr.safeOn) && fn.Parent() != nil && (fn.Parent() == fr.fn || fn.Parent() == vc.fn)
 	if len(fn.Params) != len(args) {
 		vc.fatalf("inline %s: arity mismatch", fn)
 		return vc.freshResult(st, resType, name)
@@ -1861,6 +1862,8 @@ func (vc *VC) intrinsic(fr *Frame, instr ssa.Instruction, callee *ssa.Function, 
 		n = 8
 	case "(encoding/binary.littleEndian).Uint16":
 		n = 2
+	case "sort.Search":
+		return vc.sortSearch(fr, instr, args, st)
 	default:
 		return Val{}, false
 	}
@@ -1989,4 +1992,41 @@ func inSubset(fn *ssa.Function) bool {
 		}
 	}
 	return true
+}
+
+// sortSearch models sort.Search(n, f) for a known closure f without assuming f monotone:
+// the result r satisfies 0 <= r <= n, (r == 0 or !f(r-1)) and (r == n or f(r)); f is only ever applied
+// to indices in [0,n), and its own safety obligations are checked for an arbitrary such index.
+// (With a sorted slice and a transitive comparison the callers derive the usual lower-bound meaning.)
+func (vc *VC) sortSearch(fr *Frame, instr ssa.Instruction, args []Val, st *State) (Val, bool) {
+	if len(args) != 2 || args[1].Clo == nil {
+		return Val{}, false
+	}
+	vc.uses["intrinsic sort.Search"] = true
+	n := args[0].T
+	clo := args[1].Clo
+	intT := types.Typ[types.Int]
+	apply := func(idx string, cond string, label string) string {
+		br := st.clone()
+		vc.assumeInto(br, st.pc, cond)
+		res := vc.inline(fr, instr, clo.Fn, nil, "sort.Search$f", []Val{{T: idx, Typ: intT}}, clo.Bindings, types.Typ[types.Bool], br)
+		b := vc.freshConst(label, "Bool")
+		vc.emit(fmt.Sprintf("(assert (=> %s (= %s %s)))", br.pc, b, res.T))
+		// the application itself neither panics (its safety obligations were generated above) nor is pruned:
+		// the heap well-formedness facts assumed while executing f hold on the main path as well
+		vc.assume(st, fmt.Sprintf("(=> %s %s)", cond, br.pc))
+		return b
+	}
+	if vc.safe(fr) {
+		vc.oblige(st, fmt.Sprintf("%s#safe.make.%d", vc.fnName(), vc.ord(fr, "make")), "safe", fmt.Sprintf("(<= 0 %s)", n), "sort.Search: negative n", instr.Pos())
+	}
+	r := vc.freshConst("search", "Int")
+	vc.assume(st, fmt.Sprintf("(and (<= 0 %s) (<= %s %s))", r, r, n))
+	// safety of f on an arbitrary index of [0,n)
+	k := vc.freshConst("search.k", "Int")
+	apply(k, fmt.Sprintf("(and (<= 0 %s) (< %s %s))", k, k, n), "search.fk")
+	below := apply(fmt.Sprintf("(- %s 1)", r), fmt.Sprintf("(> %s 0)", r), "search.below")
+	at := apply(r, fmt.Sprintf("(< %s %s)", r, n), "search.at")
+	vc.assume(st, fmt.Sprintf("(and (=> (> %s 0) (not %s)) (=> (< %s %s) %s))", r, below, r, n, at))
+	return Val{T: r, Typ: intT}, true
 }
